@@ -344,10 +344,14 @@ def build_harness(ctx, name, harness_c, repo_srcs, cpu=None, extra=(), ldflags=(
     cmd += [os.path.join(VERIF, "harness", harness_c)]
     cmd += [os.path.join(REPO, s) for s in repo_srcs]
     cmd += ["-o", out] + list(ldflags)
-    r = run(cmd)
-    if r.returncode != 0:
-        return None, r.stderr[-4000:]
-    return out, ""
+    for attempt in range(3):
+        r = run(cmd)
+        if r.returncode == 0:
+            return out, ""
+        if r.returncode > 0 and r.stderr.strip():
+            break               # a real compiler diagnostic
+        time.sleep(2 + 3 * attempt)     # the compiler was killed (signal, out of memory on a loaded machine): not the code's fault, try again
+    return None, "gcc exit=%d\n%s" % (r.returncode, r.stderr[-4000:])
 
 
 ASAN_ENV = {"ASAN_OPTIONS": "detect_leaks=1:abort_on_error=0:exitcode=99:allocator_may_return_null=1",
